@@ -266,7 +266,17 @@ pub fn cmd_text_fields(a: &HashMap<String, String>) -> i32 {
     let thorough = a.get("tier").map(|t| t == "thorough").unwrap_or(false);
     let mut w = std::io::BufWriter::new(std::fs::File::create(out).expect("create"));
     let mut n = 0usize;
-    let flavours: [(&str, &str, usize); 5] = [("ascii", "a", 1), ("latin1", "\u{e9}", 1), ("cyrillic", "\u{448}", 1), ("dbcs", "\u{ff0f}", 2), ("mixed", "a\u{448}\u{e9}", 1)];
+    // "switching": a code page switch at every character; "dbcs-caret": double-byte characters whose trail byte is '^' (an
+    // ordinary lead byte and one of the IBM extension rows) followed by code page letters
+    let flavours: [(&str, &str, usize); 7] = [
+        ("ascii", "a", 1),
+        ("latin1", "\u{e9}", 1),
+        ("cyrillic", "\u{448}", 1),
+        ("dbcs", "\u{ff0f}", 2),
+        ("mixed", "a\u{448}\u{e9}", 1),
+        ("switching", "\u{11b}\u{448}", 1),
+        ("dbcs-caret", "\u{ff0f}L\u{9348}K", 1),
+    ];
     for f in FIELDS {
         // where does the field start ? first byte that changes between an empty and a non-empty text
         let (p0, p1) = match (packet_with_text(f.kind, f.field, ""), packet_with_text(f.kind, f.field, "Z")) {
@@ -303,13 +313,25 @@ pub fn cmd_text_fields(a: &HashMap<String, String>) -> i32 {
                     for mode in ["U", "C"] {
                         let ev = match try_encode(mode, &p) {
                             Ok(frame) => {
+                                let mut back_text = json!([]);
+                                let mut reenc = false;
                                 let (consumed, back) = match standalone(mode, &frame) {
-                                    (crate::frames::Verdict::Pkt { consumed, .. }, Some(q)) => (consumed as i64, crate::abs::kind_of(&q).to_string()),
+                                    (crate::frames::Verdict::Pkt { consumed, .. }, Some(q)) => {
+                                        back_text = q.to_abs()["rec"][f.field].clone();
+                                        reenc = try_encode(mode, &q).map(|b| b == frame).unwrap_or(false);
+                                        (consumed as i64, crate::abs::kind_of(&q).to_string())
+                                    },
                                     (crate::frames::Verdict::DecodeErr { consumed }, _) => (consumed as i64, "decode-error".to_string()),
                                     _ => (-1, "none".to_string()),
                                 };
+                                // does the whole text fit its field ?  (then it must come back unchanged: C01 for non-ASCII text)
+                                let cap = match f.rule {
+                                    "fixed" | "var" => f.n,
+                                    _ => f.n - 1,
+                                };
                                 json!({"ev": "Frame", "kind": f.kind, "name": f.field, "mode": mode, "flavour": fl, "enclen": enc.len(), "res": "ok",
-                                       "bytes": frame, "consumed": consumed, "back": back})
+                                       "bytes": frame, "consumed": consumed, "back": back, "text": cps(&text), "back_text": back_text,
+                                       "fits": enc.len() <= cap && !f.raw, "reenc": reenc})
                             },
                             Err(e) => json!({"ev": "Frame", "kind": f.kind, "name": f.field, "mode": mode, "flavour": fl, "enclen": enc.len(),
                                              "res": if e.starts_with("err") { "err" } else { "panic" }, "bytes": [], "consumed": 0, "back": "none"}),
